@@ -75,6 +75,13 @@ def gen_direct_case(rnd):
     argt = 'float'
     if rnd.random() < 0.2:
         argt = rnd.choice(ax.ANGLE_CLASSES)
+        if rnd.random() < 0.5:
+            # typed-looking values: whole minutes / seconds / tenths of a degree
+            step = rnd.choice([60, 1, 360, 3600])
+            lat1 = max(-90.0, min(90.0, round(lat1 * 3600 / step) * step / 3600.0))
+            lon1 = max(-180.0, min(180.0, round(lon1 * 3600 / step) * step / 3600.0))
+            az = max(0.0, min(360.0, round(az * 3600 / step) * step / 3600.0))
+            kind = kind + '+lattice'
     return {'ell': ell, 'lat1': lat1, 'lon1': lon1, 'az': az, 's': s, 'argt': argt, 'kind': kind}
 
 
@@ -203,7 +210,11 @@ def gen_inverse_case(rnd):
             lo2 = wrap180(lo2)
         elif m == 9:
             la2, lo2 = la1, lo1
-            if rnd.random() < 0.5:
+            if rnd.random() < 0.3:
+                # the same point written with longitudes 360 degrees apart (180 / -180)
+                lo1, lo2 = rnd.choice([(180.0, -180.0), (-180.0, 180.0)])
+                kind = 'coincident-mod-360'
+            elif rnd.random() < 0.5:
                 la2 = la1 + rnd.choice([0.0, 5e-11, -5e-11])
                 lo2 = lo1 + rnd.choice([0.0, 5e-11, -5e-11])
         else:
@@ -238,7 +249,7 @@ def judge_inverse(ns, ctx, case, aspects=('closure', 'reverse', 'symmetry', 'shi
         return None
     ctx.bucket('inverse', ellname(case['ell']), case.get('kind'), int(sep // 30),
                -4 if s <= 0 else (int(math.log10(s)) if s >= 1 else -1), int(max(abs(la1), abs(la2)) // 30))
-    identical = (la1 == la2 and lo1 == lo2)
+    identical = (la1 == la2 and (lo1 == lo2 or abs(lo1 - lo2) == 360.0))
     if identical:
         ctx.count('coincident')
         if s != 0:
